@@ -19,7 +19,9 @@ ENUMERATED = ["state reply length: every exact length below the parser's largest
 EXPLANATION = ("exception-class analysis: the three state queries are executed from the AST on replies whose every byte and whose length "
                "class are arbitrary; every path must end in a normal return or in RuntimeError; with an empty login reply the state "
                "queries and all type-2 operations raise RuntimeError after exactly one frame; SwitcherBaseResponse.successful is "
-               "proved equivalent to 'reply non-empty'")
+               "proved equivalent to 'reply non-empty'; on the four-step thermostat exchange (login, state, command, separate swing "
+               "command) with every later reply forked empty / non-empty the call never returns a response that reports success "
+               "when a reply it read was empty (the 'mistaken for success' of the title, at operation level)")
 QUERY = {"get_state": 101, "get_shutter_state": 80, "get_breeze_state": 92}
 
 
@@ -142,6 +144,21 @@ def units(tier):
                 Obligation(base + "/no_further_frame", ctx, len(run["writes"]) == 1)]
     u["breeze_empty_login"] = Unit("breeze_empty_login", PROP, breeze_empty, functions=[API + "SwitcherType2Api.control_breeze_device"])
 
+    # the four-step thermostat exchange: an empty reply at any step is never reported as success (request shapes reduced to
+    # one representative mode / fan level: which replies are read does not depend on the values; C16 covers every shape)
+    from .breeze import breeze_units, request_shapes
+    reps = {}
+    for sh in request_shapes():
+        st, md, fn_, sw, upd, sep = sh
+        key = (st, md is not None, fn_ is not None, sw, upd, sep)
+        reps.setdefault(key, sh)
+    for k, v in breeze_units(PROP, "C09", nchunks=8, shapes=list(reps.values())).items():
+        if not k.startswith("dep_"):
+            u["breeze_steps_" + k.split("_")[1]] = v
+            v.name = "breeze_steps_" + k.split("_")[1]
+        else:
+            u[k] = v
+
     def successful(ip, ctx):
         c = cls("aioswitcher.api.messages.SwitcherBaseResponse")
         k = ctx.fork(3)
@@ -181,9 +198,12 @@ def replay_case(o):
 
 
 def search_cases(o, seed):
+    if "control_breeze_device" in o["name"]:
+        return [{"prop": PROP, "kind": "breeze_steps", "inputs": {"seed": seed, "n": 300}}]
     return [{"prop": PROP, "kind": "sweep", "inputs": {"seed": seed, "n": 3000}}]
 
 
 def native_cases(tier, seed):
     return [{"prop": PROP, "kind": "sweep", "inputs": {"seed": seed, "n": 3000 if tier == "quick" else 100000}},
-            {"prop": PROP, "kind": "prefixes", "inputs": {}}]
+            {"prop": PROP, "kind": "prefixes", "inputs": {}},
+            {"prop": PROP, "kind": "breeze_steps", "inputs": {"seed": seed, "n": 150 if tier == "quick" else 5000}}]
